@@ -714,7 +714,7 @@ theorem satisfiable_range_206 (d1 d2 : Str) (h1 : IsDigits d1) (h2 : IsDigits d2
   have hr : respond "GET".toList { range := some (bytesEq ++ (d1 ++ '-' :: d2)) } r
       (some (n : Int)) true chunks none kind =
       some ⟨206, some ((a : Int), (b : Int) - 1, (n : Int)), some ((b : Int) - a),
-        rangeWrapIter chunks a (b - a)⟩ := by
+        rangeWrapIter chunks a (b - a), true⟩ := by
     simp only [respond, hmc, e1, Bool.false_eq_true, ↓reduceIte, Option.getD_some, Int.toNat_natCast, e]
   exact ⟨_, hr, rfl, rfl, rfl, (rangeWrapper_exact_iter chunks a (b - a)).1⟩
 
@@ -814,5 +814,290 @@ theorem failed_if_range_not_range (q : CondReq) (r : RespIn) (cl : Option Int) (
 
 example : isResourceModified { range := some "bytes=0-1".toList, ifRange := some "\"old\"".toList }
     (some "\"abc\"".toList) none false = true := by decide
+
+
+
+/-! ## dates as header text (IMF-fixdate, C06's date model): nothing opaque -/
+
+/-- End to end on header text, one-second resolution: a request carrying
+`If-Modified-Since: <http_date(t')>` (no entity-tag validators) against a resource last modified at
+instant `s` seconds + `m` microseconds is "not modified" exactly when `s ≤ t'` — the sub-second
+part `m` plays no role, whatever ETag the response has and whatever `Range` / `If-Range` it carries.
+The date text is parsed by C06's model (`date_roundtrip`), nothing is opaque. -/
+theorem ims_text_iff (t' : Nat) (ht : InDateRange t') (etag : Option Str) (s : Int) (m : Nat)
+    (range ifRange : Option Str) :
+    isResourceModified (mkReqText range ifRange (some (Date.httpDate t')) none none) etag (some (s, m)) true
+      = false ↔ s ≤ t' := by
+  unfold mkReqText
+  rw [dateOfText_httpDate t' ht]
+  unfold isResourceModified
+  cases etag with
+  | none => simp [dateUnmodified]
+  | some et =>
+    cases hu : unquoteEtag et <;> simp [hu, dateUnmodified, parseEtags, ETags.empty, ETags.truthy]
+
+example : InDateRange 63902822400 ∧
+    Date.httpDate 63902822400 = "Thu, 01 Jan 2026 00:00:00 GMT".toList := by
+  refine ⟨⟨by decide, by decide⟩, by decide⟩
+
+/-- The status on header text: with `Last-Modified: <http_date(s)>` on the response (what werkzeug
+writes for any instant in second `s`) and `If-Modified-Since: <http_date(t')>` on a GET/HEAD
+request, the answer is 304 exactly when `s ≤ t'` — also when a `Range` header is present. -/
+theorem status_304_text_iff (method : Str) (hm : method = "GET".toList ∨ method = "HEAD".toList)
+    (s t' : Nat) (hs : InDateRange s) (ht : InDateRange t') (etag range ifRange : Option Str)
+    (cl : Option Int) (ar : Bool) :
+    makeConditionalStatus method (mkReqText range ifRange (some (Date.httpDate t')) none none)
+        (mkRespText etag (some (Date.httpDate s))) cl ar = some (304, .notRange) ↔ s ≤ t' := by
+  have hlm : lmOf (mkRespText etag (some (Date.httpDate s))) = some ((s : Int), 0) := by
+    simp [lmOf, mkRespText, dateOfText_httpDate s hs]
+  have hetag : (mkRespText etag (some (Date.httpDate s))).etag = etag := rfl
+  have key := ims_text_iff t' ht etag (s : Int) 0 range ifRange
+  have him : (parseEtags (mkReqText range ifRange (some (Date.httpDate t')) none none).im).truthy = false := by
+    simp [mkReqText, parseEtags, ETags.empty, ETags.truthy]
+  constructor
+  · intro h
+    have := (status_304_sound method _ _ cl ar _ h).2.2
+    have hnm := (not_modified_iff _ _ _).mpr this
+    rw [hetag, hlm] at hnm
+    exact Int.ofNat_le.mp (key.mp hnm)
+  · intro hle
+    have hnm : isResourceModified (mkReqText range ifRange (some (Date.httpDate t')) none none)
+        (mkRespText etag (some (Date.httpDate s))).etag (lmOf (mkRespText etag (some (Date.httpDate s)))) true = false := by
+      rw [hetag, hlm]; exact key.mpr (Int.ofNat_le.mpr hle)
+    rw [status_not_modified method _ _ cl ar hm hnm]
+    simp [him]
+
+
+
+
+/-- `If-Range: <http_date(d)>` with a `Range` header: the range request is processable exactly when
+the resource's Last-Modified second `s` is not later than `d` (whatever `If-Modified-Since` says,
+whatever ETag the response has). -/
+theorem if_range_date_text (rng : Str) (s d : Nat) (hs : InDateRange s) (hd : InDateRange d)
+    (etag ims : Option Str) :
+    rangeProcessable (mkReqText (some rng) (some (Date.httpDate d)) ims none none)
+      (mkRespText etag (some (Date.httpDate s))) = decide (s ≤ d) := by
+  have hlm : lmOf (mkRespText etag (some (Date.httpDate s))) = some ((s : Int), 0) := by
+    simp [lmOf, mkRespText, dateOfText_httpDate s hs]
+  have hne : (Date.httpDate d).isEmpty = false := by
+    cases h : Date.httpDate d with
+    | nil => exact absurd h (httpDate_ne_nil d hd)
+    | cons _ _ => rfl
+  unfold rangeProcessable
+  rw [hlm]
+  simp only [mkReqText, mkRespText, dateOfText_httpDate d hd, Option.isNone_some, Bool.false_or,
+    Option.isSome_some, Bool.and_true]
+  unfold isResourceModified
+  simp only [Bool.not_false, Option.isSome_some, Bool.and_self, ↓reduceIte, parseIfRange, hne,
+    Bool.false_eq_true]
+  cases etag with
+  | none => simp [dateUnmodified]
+  | some et =>
+    cases hu : unquoteEtag et <;> simp [hu, dateUnmodified, parseEtags, ETags.empty, ETags.truthy]
+
+/-- every answer of the response model has one of three shapes -/
+theorem respond_cases (method : Str) (q : CondReq) (r : RespIn) (cl : Option Int) (ar : Bool)
+    (chunks : List Bytes) (seek : Option Nat) (kind : Nat) (o : WsgiOut)
+    (h : respond method q r cl ar chunks seek kind = some o) :
+    (∃ a b, makeConditionalStatus method q r cl ar = some (206, .partialContent a b) ∧
+      o.status = 206 ∧ o.acceptRanges = true ∧ o.contentLength = some (b - a)) ∨
+    (makeConditionalStatus method q r cl ar = some (304, .notRange) ∧
+      o = ⟨304, none, none, [], false⟩) ∨
+    (∃ st, (st = 200 ∨ st = 412) ∧ makeConditionalStatus method q r cl ar = some (st, .notRange) ∧
+      o.status = st ∧ o.contentRange = none ∧ o.acceptRanges = false ∧
+      o.body = (if method == ['H', 'E', 'A', 'D'] then [] else chunks.filter (!·.isEmpty)) ∧
+      o.contentLength = (if kind == 0 || (kind == 1 && (method == ['G', 'E', 'T'] || method == ['H', 'E', 'A', 'D']))
+        then some ((chunks.flatten.length : Nat) : Int) else none)) := by
+  unfold respond at h
+  simp only at h
+  cases hmc : makeConditionalStatus method q r cl ar with
+  | none => rw [hmc] at h; cases h
+  | some p =>
+    obtain ⟨st, oc⟩ := p
+    rw [hmc] at h
+    rcases status_cases method q r cl ar st oc hmc with ⟨h1, h2⟩ | ⟨a, b, h1, h2, _⟩ | ⟨_, _, h2, h3⟩
+    · subst h1; subst h2
+      have e : ((200 : Nat) == 304) = false := by decide
+      simp only [e, Bool.false_eq_true, ↓reduceIte, Option.some.injEq] at h
+      right; right
+      refine ⟨200, Or.inl rfl, rfl, ?_⟩
+      subst h
+      simp
+    · subst h1; subst h2
+      simp only [Option.some.injEq] at h
+      left
+      refine ⟨a, b, rfl, ?_⟩
+      subst h
+      simp
+    · subst h2
+      by_cases him : (parseEtags q.im).truthy = true
+      · simp only [him, ↓reduceIte] at h3
+        subst h3
+        have e : ((412 : Nat) == 304) = false := by decide
+        simp only [e, Bool.false_eq_true, ↓reduceIte, Option.some.injEq] at h
+        right; right
+        refine ⟨412, Or.inr rfl, rfl, ?_⟩
+        subst h
+        simp
+      · simp only [him, Bool.false_eq_true, ↓reduceIte] at h3
+        subst h3
+        simp only [BEq.rfl, ↓reduceIte, Option.some.injEq] at h
+        right; left
+        refine ⟨rfl, ?_⟩
+        subst h
+        simp
+
+/-- Content-Length equals the number of body bytes actually produced: for a GET on a response
+built from a list (sequence) of chunks whose total length is the declared `complete_length`, every
+200, 206 and 412 answer carries `Content-Length = |body|` — whatever the chunking. -/
+theorem content_length_matches_body (q : CondReq) (r : RespIn) (ar : Bool) (chunks : List Bytes)
+    (o : WsgiOut)
+    (h : respond "GET".toList q r (some ((chunks.flatten.length : Nat) : Int)) ar chunks none 0 = some o)
+    (hst : o.status ≠ 304) :
+    o.contentLength = some ((o.body.flatten.length : Nat) : Int) := by
+  rcases respond_cases _ _ _ _ _ _ _ _ o h with ⟨a, b, _, h206, _, _⟩ | ⟨_, ho⟩ | ⟨st, _, _, _, _, _, hbody, hcl⟩
+  · obtain ⟨a', b', h0, hab, hbl, _, hcl, hbody, _⟩ :=
+      range_response_206 "GET".toList q r _ ar chunks none 0 o (by intro bs hb; cases hb) h h206
+    have hb := hbody (by decide)
+    rw [hcl, hb]
+    simp only [List.length_take, List.length_drop, Option.some.injEq]
+    omega
+  · rw [ho] at hst; exact absurd rfl hst
+  · rw [hcl, hbody]
+    simp [filter_nonEmpty_flatten]
+
+example : (respond "GET".toList { range := some "bytes=1-3".toList } {} (some 6) true
+    [[65], [], [66, 67, 68, 69], [70]] none 0).map (fun o => (o.status, o.contentLength, o.body.flatten.length))
+    = some (206, some 3, 3) := by decide
+
+/-- A 304 carries no body, no Content-Length, no Content-Range and no Accept-Ranges. -/
+theorem not_modified_no_body (method : Str) (q : CondReq) (r : RespIn) (cl : Option Int) (ar : Bool)
+    (chunks : List Bytes) (seek : Option Nat) (kind : Nat) (o : WsgiOut)
+    (h : respond method q r cl ar chunks seek kind = some o) (hs : o.status = 304) :
+    o.body = [] ∧ o.contentLength = none ∧ o.contentRange = none ∧ o.acceptRanges = false := by
+  rcases respond_cases _ _ _ _ _ _ _ _ o h with ⟨a, b, _, h206, _, _⟩ | ⟨_, ho⟩ | ⟨st, hst, _, hs', _⟩
+  · rw [h206] at hs; cases hs
+  · rw [ho]; exact ⟨rfl, rfl, rfl, rfl⟩
+  · rw [hs] at hs'; rcases hst with rfl | rfl <;> cases hs'
+
+/-- `Accept-Ranges: bytes` is sent exactly with a 206 (`_process_range_request` sets it only on
+success). -/
+theorem accept_ranges_iff_206 (method : Str) (q : CondReq) (r : RespIn) (cl : Option Int) (ar : Bool)
+    (chunks : List Bytes) (seek : Option Nat) (kind : Nat) (o : WsgiOut)
+    (h : respond method q r cl ar chunks seek kind = some o) :
+    o.acceptRanges = true ↔ o.status = 206 := by
+  rcases respond_cases _ _ _ _ _ _ _ _ o h with ⟨a, b, _, h206, har, _⟩ | ⟨_, ho⟩ | ⟨st, hst, _, hs', _, har, _⟩
+  · simp [h206, har]
+  · rw [ho]; simp
+  · rw [har, hs']; rcases hst with rfl | rfl <;> simp
+
+/-- A 412 (as werkzeug produces it) keeps the complete body and a matching Content-Length; only the
+status changes. HEAD answers never carry a body. -/
+theorem precondition_failed_keeps_body (method : Str) (q : CondReq) (r : RespIn) (cl : Option Int)
+    (ar : Bool) (chunks : List Bytes) (seek : Option Nat) (kind : Nat) (o : WsgiOut)
+    (h : respond method q r cl ar chunks seek kind = some o) (hs : o.status = 412) :
+    o.contentRange = none ∧
+    (method ≠ "HEAD".toList → o.body.flatten = chunks.flatten) ∧
+    (method = "HEAD".toList → o.body = []) := by
+  have e2 : "HEAD".toList = ['H', 'E', 'A', 'D'] := by decide
+  rw [e2]
+  rcases respond_cases _ _ _ _ _ _ _ _ o h with ⟨a, b, _, h206, _, _⟩ | ⟨_, ho⟩ | ⟨st, _, _, _, hcr, _, hbody, _⟩
+  · rw [h206] at hs; cases hs
+  · rw [ho] at hs; cases hs
+  · refine ⟨hcr, ?_, ?_⟩
+    · intro hm
+      have : (method == ['H', 'E', 'A', 'D']) = false := by simpa using hm
+      rw [hbody]; simp [this, filter_nonEmpty_flatten]
+    · intro hm
+      rw [hbody]; simp [hm]
+
+
+
+theorem no_validators_modified_general (q : CondReq) (h1 : q.ims = none) (h2 : q.inm = none) (h3 : q.im = none)
+    (etag : Option Str) (lm : Option (Int × Nat)) : isResourceModified q etag lm true = true := by
+  unfold isResourceModified
+  cases etag with
+  | none => simp [dateUnmodified, h1]
+  | some et =>
+    cases hu : unquoteEtag et <;> simp [hu, dateUnmodified, parseEtags, ETags.empty, ETags.truthy, h1, h2, h3]
+
+/-- General form of `satisfiable_range_206`: any GET whose resource counts as modified, whose range
+request is processable (no `If-Range`, or one that validates) and whose `Range` header is
+`bytes=<first>-<last>` with `first ≤ last`, `first < n`, is answered 206 with exactly
+`body[first : min(last+1, n)]`, for every chunking. -/
+theorem satisfiable_range_206_general (d1 d2 : Str) (h1 : IsDigits d1) (h2 : IsDigits d2)
+    (hle : digitsVal d1 ≤ digitsVal d2) (chunks : List Bytes) (q : CondReq) (r : RespIn) (n : Nat)
+    (ha : digitsVal d1 < n) (kind : Nat)
+    (hq : q.range = some (bytesEq ++ (d1 ++ '-' :: d2)))
+    (hmod : isResourceModified q r.etag (lmOf r) true = true) (hproc : rangeProcessable q r = true) :
+    let a : Nat := digitsVal d1
+    let b : Nat := min (digitsVal d2 + 1) n
+    ∃ o, respond "GET".toList q r (some (n : Int)) true chunks none kind = some o ∧
+      o.status = 206 ∧ o.contentRange = some ((a : Int), (b : Int) - 1, (n : Int)) ∧
+      o.contentLength = some ((b : Int) - a) ∧
+      o.body.flatten = (chunks.flatten.drop a).take (b - a) := by
+  intro a b
+  have hp := parse_range_first_last d1 d2 h1 h2 hle
+  have hrf : rangeForLength ⟨bytesUnit, [((digitsVal d1 : Int), some ((digitsVal d2 : Int) + 1))]⟩
+      (some (n : Int)) = some ((a : Int), (b : Int)) := by
+    unfold rangeForLength isByteRangeValid
+    have c1 : ¬ ((digitsVal d1 : Int) ≥ (digitsVal d2 : Int) + 1) := by omega
+    have c2 : (digitsVal d1 : Int) < (n : Int) := by omega
+    simp [c1, c2, a, b]
+    omega
+  have hmc : makeConditionalStatus "GET".toList q r (some (n : Int)) true
+      = some (206, .partialContent a b) := by
+    have hz : n ≠ 0 := by omega
+    rw [status_modified _ _ _ _ _ (Or.inl rfl) hmod]
+    simp [processRangeRequest, hproc, hq, hp, hrf, hz]
+  have e1 : ("GET".toList == ['H', 'E', 'A', 'D']) = false := by decide
+  have e : ((b : Int) - (a : Int)).toNat = b - a := by omega
+  have hr : respond "GET".toList q r (some (n : Int)) true chunks none kind =
+      some ⟨206, some ((a : Int), (b : Int) - 1, (n : Int)), some ((b : Int) - a),
+        rangeWrapIter chunks a (b - a), true⟩ := by
+    simp only [respond, hmc, e1, Bool.false_eq_true, ↓reduceIte, Option.getD_some, Int.toNat_natCast, e]
+  exact ⟨_, hr, rfl, rfl, rfl, (rangeWrapper_exact_iter chunks a (b - a)).1⟩
+
+/-- End to end on header text: `Range: bytes=<first>-<last>` with `If-Range: <http_date(d)>` against
+a response whose `Last-Modified` header is `http_date(s)`: when `s ≤ d` the answer is the 206 with
+exactly the requested bytes … -/
+theorem if_range_date_pass_206 (d1 d2 : Str) (h1 : IsDigits d1) (h2 : IsDigits d2)
+    (hle : digitsVal d1 ≤ digitsVal d2) (chunks : List Bytes) (n : Nat) (ha : digitsVal d1 < n)
+    (kind : Nat) (s d : Nat) (hs : InDateRange s) (hd : InDateRange d) (etag : Option Str)
+    (hsd : s ≤ d) :
+    ∃ o, respond "GET".toList
+        (mkReqText (some (bytesEq ++ (d1 ++ '-' :: d2))) (some (Date.httpDate d)) none none none)
+        (mkRespText etag (some (Date.httpDate s))) (some (n : Int)) true chunks none kind = some o ∧
+      o.status = 206 ∧
+      o.body.flatten = (chunks.flatten.drop (digitsVal d1)).take (min (digitsVal d2 + 1) n - digitsVal d1) := by
+  obtain ⟨o, ho, hst, _, _, hb⟩ := satisfiable_range_206_general d1 d2 h1 h2 hle chunks
+    (mkReqText (some (bytesEq ++ (d1 ++ '-' :: d2))) (some (Date.httpDate d)) none none none)
+    (mkRespText etag (some (Date.httpDate s))) n ha kind rfl
+    (no_validators_modified_general _ rfl rfl rfl _ _)
+    (by rw [if_range_date_text _ s d hs hd]; simpa using hsd)
+  exact ⟨o, ho, hst, hb⟩
+
+/-- … and when the resource is newer (`d < s`, the `If-Range` fails) the `Range` header is ignored:
+status 200 with the complete body. -/
+theorem if_range_date_fail_full_body (rng : Str) (chunks : List Bytes) (cl : Option Int) (kind : Nat)
+    (s d : Nat) (hs : InDateRange s) (hd : InDateRange d) (etag : Option Str) (hsd : d < s) :
+    ∃ o, respond "GET".toList (mkReqText (some rng) (some (Date.httpDate d)) none none none)
+        (mkRespText etag (some (Date.httpDate s))) cl true chunks none kind = some o ∧
+      o.status = 200 ∧ o.contentRange = none ∧ o.body.flatten = chunks.flatten := by
+  have hproc : rangeProcessable (mkReqText (some rng) (some (Date.httpDate d)) none none none)
+      (mkRespText etag (some (Date.httpDate s))) = false := by
+    rw [if_range_date_text _ s d hs hd]; simp; omega
+  have hnr : processRangeRequest (mkReqText (some rng) (some (Date.httpDate d)) none none none)
+      (mkRespText etag (some (Date.httpDate s))) cl true = .notRange := by
+    unfold processRangeRequest
+    cases cl with
+    | none => rfl
+    | some l => simp [hproc]
+  have hmc : makeConditionalStatus "GET".toList (mkReqText (some rng) (some (Date.httpDate d)) none none none)
+      (mkRespText etag (some (Date.httpDate s))) cl true = some (200, .notRange) := by
+    rw [status_modified _ _ _ _ _ (Or.inl rfl) (no_validators_modified_general _ rfl rfl rfl _ _), hnr]
+  obtain ⟨o, ho, hst, hcr, hb⟩ := ignored_range_full_body "GET".toList _ _ cl true chunks none kind hmc
+  exact ⟨o, ho, hst, hcr, hb (by decide)⟩
+
 
 end Wz.Props.C11
